@@ -418,17 +418,34 @@ both('t_macx_core', MC,
 MACB = ['macro scaled($id: expr, $out: ident) { p($id, w), let $out = { let w = w * 10; w + 1 } }',
         'macro twice($id: expr, $out: ident) { p($id, w), let $out = { let u = w + 1; let w = u * w; let u = w + u; u } }',
         'macro viaf($id: expr, $out: ident) { p($id, w), let $out = (|w: i32| w + 1)(w * 2) }',
-        'macro arm($id: expr, $out: ident) { p($id, w), let $out = match Some(w + 1) { Some(w) => w * 3, None => *w } }']
+        'macro arm($id: expr, $out: ident) { p($id, w), let $out = match Some(w + 1) { Some(w) => w * 3, None => *w } }',
+        'macro armg($id: expr, $out: ident) { p($id, w), let $out = match Some(w + 100) { Some(w) if w.clone() > 100 => w, _ => -1 } }']
 both('t_macb_sugar', MC, [], body=['pub struct P;'] + [d + ';' for d in MC] + MACB + [
      'r(x, v) <-- k(w), p(x, y), if y <= w, scaled!(x, v);',
      'r(x, v) <-- k(w), k(u), if u < w, twice!(x, v);',
      'r(x, v) <-- k(w), p(x, y), if y <= w, viaf!(x, v);',
-     'r(x, v) <-- k(w), p(x, y), if y <= w, arm!(x, v);'], tags=['twin'], twin=('t_macb_core', 'L'))
+     'r(x, v) <-- k(w), p(x, y), if y <= w, arm!(x, v);',
+     'b(x, v) <-- k(w), p(x, y), if y <= w, armg!(x, v);'], tags=['twin'], twin=('t_macb_core', 'L'))
 both('t_macb_core', MC,
      ['r(x, v) <-- k(w), p(x, y), if y <= w, p(x, w1), let v = { let w = w1 * 10; w + 1 }',
       'r(x, v) <-- k(w), k(u), if u < w, p(x, w1), let v = { let u = w1 + 1; let w = u * w1; let u = w + u; u }',
       'r(x, v) <-- k(w), p(x, y), if y <= w, p(x, w1), let v = (|w: i32| w + 1)(w1 * 2)',
-      'r(x, v) <-- k(w), p(x, y), if y <= w, p(x, w1), let v = match Some(w1 + 1) { Some(w) => w * 3, None => *w1 }'], tags=['twin'])
+      'r(x, v) <-- k(w), p(x, y), if y <= w, p(x, w1), let v = match Some(w1 + 1) { Some(w) => w * 3, None => *w1 }',
+      'b(x, v) <-- k(w), p(x, y), if y <= w, p(x, w1), let v = match Some(w1 + 100) { Some(w) if w.clone() > 100 => w, _ => -1 }'], tags=['twin'])
+# an aggregation inside a macro body: the aggregated variables (`sum(v) in p($k, v)`) are local to the macro as well
+MACG = ['macro total($k: expr, $out: ident) { agg $out = sum(v) in p($k, v) }',
+        'macro cnt2($k: expr, $out: ident) { k(t), agg $out = count() in edge($k, t) }',
+        'macro tot2($k: expr, $out: ident) { agg v = sum(v) in p($k, v), let $out = v + 1 }']
+both('t_macg_sugar', MC, [], body=['pub struct P;'] + [d + ';' for d in MC] + MACG + [
+     'r(x, s) <-- k(x), k(v), if v > x, total!(x, s);',
+     'r(x, s) <-- k(x), total!(x, s), total!(x + 1, s2), if s2 > s;',
+     'a(t) <-- k(t), cnt2!(t, c), if c > 1;',
+     'b(x, s) <-- k(x), k(v), if v > x, tot2!(x, s);'], tags=['twin'], twin=('t_macg_core', 'L'))
+both('t_macg_core', MC,
+     ['r(x, s) <-- k(x), k(v), if v > x, agg s = sum(v1) in p(x, v1)',
+      'r(x, s) <-- k(x), agg s = sum(v1) in p(x, v1), agg s2 = sum(v2) in p(x + 1, v2), if s2 > s',
+      'a(t) <-- k(t), k(t1), agg c = count() in edge(t, t1), if c > 1',
+      'b(x, s) <-- k(x), k(v), if v > x, agg v1 = sum(v2) in p(x, v2), let s = v1 + 1'], tags=['twin'])
 # a disjunction inside a macro body whose locals are private to one disjunct each
 MACD = ['macro alt($a: expr, $b: expr) { (edge($a, t1), p(t1, $b) | p($a, t2), edge(t2, $b)) }',
         'macro alt2($a: expr, $b: expr) { k($a), (alt!($a, m) | edge($a, m)), edge(m, $b) }']
